@@ -354,7 +354,9 @@ PROPS["C20"] = {
     "rule": "sequences of 3..12 random `tuftool root` sub-commands (init [--version], add-key with 1-2 keys x 1-3 roles incl. "
             "repeats, remove-key with/without role, set-threshold, set-version incl. 2^32 and 2^64-1, bump-version, expire, sign "
             "with 1-2 keys [--cross-sign <earlier copy>] [-i]) over six real key files (RSA, Ed25519, ECDSA), 4 of 5 sequences "
-            "start from a usable root; 150 sequences quick / 1500 thorough, plus the repaired defect as a corpus case. The real "
+            "start from a usable root (a third of those with separate root and online keys); 150 sequences quick / 1500 "
+            "thorough, plus corpus sequences: the repaired defect, a key listed for other roles only asked to sign the root, "
+            "the old root key kept as online key and cross-signed, a key removed from the root role only. The real "
             "binary (built from /repo's tree) is run once per command; after every command the file is parsed with tough's "
             "schema and abstracted (key table, role key lists, thresholds, version, for every signature: by which key and "
             "whether it verifies over the CURRENT content, self-verification, stray files in the directory). Non-trivial: a "
@@ -542,7 +544,7 @@ PROPS["C10"] = {
             "the owner incorporates it with add_role under the top-level targets or, after sign_targets_editor + "
             "change_delegated_targets, under another role which is then re-signed with its own keys; in half of these programs "
             "the holder publishes an update (genuine and newer / under-signed / wrong keys / older version) incorporated with "
-            "update_delegated_targets; in a fifth of the programs with two or more roles the last role takes the name of an earlier one (under the same parent or elsewhere in the tree); the owner signs with an adequate or an inadequate key set, or with a version / expiration "
+            "update_delegated_targets; in two thirds of the reloaded repositories the top-level targets are edited first (a target replaced by other content, removed, added back; replace-then-remove forced in a third of them); in a fifth of the programs with two or more roles the last role takes the name of an earlier one (under the same parent or elsewhere in the tree); the owner signs with an adequate or an inadequate key set, or with a version / expiration "
             "missing. If the editor reports success: write, publish every listed target (copy or symlink), load with a fresh "
             "client, compare versions, every role's targets (length, digest), the delegation tree (names, key ids, thresholds, "
             "versions), download every target, and compare every snapshot / timestamp entry with the written file (length, "
